@@ -115,7 +115,20 @@ func runGuarded(p Prop, sc *Scenario) (res *Result) {
 			res.Violate("harness-panic", "%v\n%s", r, buf[:n])
 		}
 	}()
-	return p.Run(sc)
+	raceBefore, logOff := raceErrors(), raceLogSize()
+	res = p.Run(sc)
+	// (race build only) any report produced while this scenario ran is
+	// attributed to it; duplicate suppression is off (GORACE), so every
+	// scenario that races is flagged, not only the first.
+	if n := raceErrors() - raceBefore; n > 0 && !res.Invalid {
+		rep := raceLogSince(logOff)
+		cls := "data-race"
+		if !strings.Contains(rep, "go.starlark.net/") && rep != "" {
+			cls = "harness-panic" // both stacks in harness code: harness defect
+		}
+		res.Violate(cls, "%d race report(s) during this scenario:\n%s", n, firstReport(rep))
+	}
+	return res
 }
 
 func cmdWorker(args []string) int {
@@ -357,9 +370,10 @@ func cmdCheck(args []string) int {
 		total = *n
 	}
 	self, _ := os.Executable()
-	raceBin := ""
-	if p.ID() == "C05" {
-		raceBin = os.Getenv("STARSIM_RACE_BIN")
+	raceBin := os.Getenv("STARSIM_RACE_BIN")
+	raceEvery := 2 // C05: every second worker runs the -race build
+	if p.ID() != "C05" {
+		raceEvery = 4 // C03/C07 (second configuration): every fourth
 	}
 	tmp, err := os.MkdirTemp(filepath.Join(verifDir(), ".work"), "run-")
 	if err != nil {
@@ -450,7 +464,7 @@ func cmdCheck(args []string) int {
 					args = append(args, "-resume", "-skip", strings.Join(skips, ","))
 				}
 				bin := self
-				if raceBin != "" && w%2 == 1 {
+				if raceBin != "" && w%raceEvery == raceEvery-1 {
 					bin = raceBin
 				}
 				cmd := exec.Command(bin, args...)
